@@ -377,6 +377,10 @@ def _abstract(t):
                 subs.append((x, v))
                 side.append(v >= 0)
                 continue
+            if x.decl().kind() == z3.Z3_OP_MUL and sum(1 for c in x.children() if not z3.is_int_value(c)) >= 2:
+                # a non-linear product: one variable per distinct monomial (keeps the abstraction linear)
+                subs.append((x, _var_for("nl", x)))
+                continue
             if z3.is_int(x) and x.num_args() and any(z3.is_seq(c) for c in x.children()):
                 # an integer-valued function of sequences (os2ip(...)): one variable per distinct term
                 v = _var_for("ia", x)
@@ -569,7 +573,12 @@ class Path:
         t0 = time.time()
         for alt in alternatives:
             t = alt.t if isinstance(alt, ZAtom) else alt
-            st, _, _ = smt_prove(self.zc, t, 4000)
+            # only the cheap abstraction here: the right alternative is linear over the monomials
+            ctxt, gl = light(self.zc, t)
+            st = "unknown"
+            if ctxt is not self.zc:
+                r0, _ = z3_check(ctxt, z3.Not(gl), 2000)
+                st = "proved" if r0 == z3.unsat else "unknown"
             if st == "proved":
                 self.obl_count += 1
                 self.ex.record(Obligation(name, " ".join(self.sig), "proved", "z3", time.time() - t0, detail, None, kind))
